@@ -16,6 +16,7 @@ does nothing.
 import contextlib
 import io
 import math
+import os
 import warnings
 
 from sim.core import canon_json, digest_hex, h64
@@ -42,7 +43,7 @@ PROBES = ["q_mut_q", "q_after_append", "q_after_remove", "q_after_modify_element
           "nonrange_index", "block_query_hit", "alias_retired", "nan_cell", "dup_value_hit", "new_column_added",
           "empty_table", "from_query_holder", "slice_holder", "copy_holder", "viewer_built", "viewer_child_block", "viewer_append", "viewer_append_to_empty", "viewer_from_iterator",
           "viewer_query", "viewer_query_on_child", "big_table", "bool_column_query", "bool_column_query_for_false",
-          "indexed_query_on_10k_rows", "indexed_query_on_10k_rows_labels_not_positions", "cell_write_added_column", "huge_int_query"]
+          "indexed_query_on_10k_rows", "indexed_query_on_10k_rows_labels_not_positions", "cell_write_added_column", "huge_int_query", "loaded_from_file", "two_tables_from_one_file"]
 # the same check again, smaller, in interpreters started with assertions stripped (python -O / PYTHONOPTIMIZE=1)
 ENV_VARIANTS = [{"name": "python-O", "env": {"PYTHONOPTIMIZE": "1"}, "runs": {'quick': 2500, 'thorough': 25000}}]
 TIERS = {
@@ -121,7 +122,7 @@ def model_new(rows, columns):
 
 MUTATIONS = ["modify_element", "modify_row", "modify_column", "append", "remove_rows", "rename_column",
              "reset_index", "fillna", "set_columns"]
-CONSTRUCTIONS = ["new", "copy_of", "from_df", "clone", "slice", "from_query", "from_qval"]
+CONSTRUCTIONS = ["new", "copy_of", "from_df", "clone", "slice", "from_query", "from_qval", "save_load"]
 QUERIES = ["len", "iterate", "access", "access_list", "access_label_col", "access_column", "get_rows",
            "slow_query_first", "qidx", "qval", "qfirst", "bundle_search", "unique", "block_indices", "read_block",
            "read_block_with", "boundary", "dict_list", "slow_query"]
@@ -299,6 +300,8 @@ def _gen_construction(rng, k):
         op["is_copy"] = rng.random() < 0.5
     elif kind == "slice":
         op.update(a=rng.randrange(10), b=rng.randrange(10))
+    elif kind == "save_load":
+        op.update(twice=rng.random() < 0.6)      # the table is saved to a file and read back, once or twice (two tables from one file)
     elif kind in ("from_query", "from_qval"):
         col = rng.choice(BASE_COLS)
         op.update(col=col, v=rng.choice(INT_VALS) if col_kind(col) == "int" else rng.choice(STR_VALS[col]),
@@ -534,6 +537,7 @@ class Quit(Exception):
 
 def execute(trace):
     k = trace["knobs"]
+    save_dir = [None]    # scratch directory for tables saved to files
     holders = []      # dicts: dm, model(T), queried(bool), mutated_after_query(str|None), retired(bool)
     probes = {}
     states, trans = set(), set()
@@ -614,6 +618,8 @@ def execute(trace):
         df = h["dm"].get_data()
         for o in list(holders):
             if o is not h and o["dm"].get_data() is df:
+                if o["origin"] == "save_load" and h["origin"] == "save_load":
+                    continue          # two tables read from a file are two tables: sharing storage between them is not licensed
                 holders.remove(o)
                 hit("alias_retired")
 
@@ -648,6 +654,31 @@ def execute(trace):
                 log.append([kind, len(model.rows)])
             elif not holders:
                 continue
+            elif kind == "save_load":
+                src = pick_holder(op["h"])
+                m = src["model"]
+
+                def one_kind(c_):
+                    vals_ = [r_.get(c_) for _, r_ in m.rows if r_.get(c_) is not None]
+                    kinds_ = {("bool" if isinstance(v_, bool) else "int" if isinstance(v_, int) else "str") for v_ in vals_}
+                    return len(kinds_) <= 1 and all(not isinstance(v_, int) or isinstance(v_, bool) or -2 ** 63 <= v_ < 2 ** 63 for v_ in vals_)
+                if not m.cols or not m.rows or not all(one_kind(c_) for c_ in m.cols):
+                    continue          # the file format stores one kind of value per column (and 64-bit integers): other tables are left out
+                if save_dir[0] is None:
+                    import tempfile
+                    from sim.core import scratch_root
+                    save_dir[0] = tempfile.mkdtemp(prefix="c16-", dir=scratch_root())
+                path_ = os.path.join(save_dir[0], f"t{step}.feather")
+                retire_aliases(src)
+                sut(lambda: src["dm"].save(path_))
+                m.rows = [[i_, r_] for i_, (_, r_) in enumerate(m.rows)]        # save() resets the row labels of the table itself
+                for _ in range(2 if op.get("twice") else 1):
+                    dm = sut(lambda: _DM().load(path_))
+                    add_holder(dm, T(m.cols, m.rows), kind)
+                hit("loaded_from_file")
+                if op.get("twice"):
+                    hit("two_tables_from_one_file")
+                log.append([kind, len(holders)])
             elif kind in ("copy_of", "from_df", "clone", "slice", "from_query", "from_qval"):
                 src = pick_holder(op["h"])
                 m = src["model"]
@@ -952,6 +983,9 @@ def execute(trace):
                 hit("nan_cell")
         if violation:
             break
+    if save_dir[0]:
+        import shutil
+        shutil.rmtree(save_dir[0], ignore_errors=True)
     return {"violation": violation, "probes": probes, "states": states, "trans": trans,
             "steps": len(trace["ops"]), "log": digest_hex([log, violation])}
 
